@@ -331,6 +331,9 @@ impl tower::Service<Request<Bytes>> for HarnessService {
             None
         };
         let resp_pad = req.headers().get(H_RESP_PAD).and_then(|s| s.parse::<usize>().ok());
+        // "vblock": the handler spends this many microseconds in a section that never yields
+        // (std::thread::sleep) - only meaningful on a multi-threaded runtime (E2 trials)
+        let block_us = req.headers().get("vblock").and_then(|s| s.parse::<u64>().ok());
         let from = req.peer_id().copied();
         let origin = req
             .extensions()
@@ -366,6 +369,9 @@ impl tower::Service<Request<Bytes>> for HarnessService {
         let body = req.into_body();
         Box::pin(async move {
             let _held_ref = held_ref;
+            if let Some(us) = block_us {
+                std::thread::sleep(Duration::from_micros(us));
+            }
             if script.delay_us == NEVER {
                 futures::future::pending::<()>().await;
             } else if script.delay_us > 0 {
@@ -820,10 +826,19 @@ pub fn check_delivery(g: &LogInner, stats: &mut DeliveryStats) -> Vec<String> {
                 || s.body_len != c.body_len
                 || s.body_hash != c.body_hash
             {
+                let (sh, ch) = (strip_transport_headers(&s.headers), strip_transport_headers(&c.headers));
+                let short = |x: &str| x.chars().take(40).collect::<String>();
+                let hdr_diff: Vec<String> = ch
+                    .iter()
+                    .filter(|(k, v)| sh.get(*k) != Some(*v))
+                    .map(|(k, v)| format!("{:?}: sent {:?}, handler saw {:?}", short(k), short(v), sh.get(k).map(|x| short(x))))
+                    .chain(sh.iter().filter(|(k, _)| !ch.contains_key(*k)).map(|(k, v)| format!("{:?}: not sent, handler saw {:?}", short(k), short(v))))
+                    .take(3)
+                    .collect();
                 v.push(format!(
-                    "request {} altered in transit: sent route={:?} hdrs={} body={}B#{:x}, handler saw route={:?} hdrs={} body={}B#{:x}",
-                    c.id, c.route, c.headers.len(), c.body_len, c.body_hash,
-                    s.route, s.headers.len(), s.body_len, s.body_hash
+                    "request {} altered in transit: sent route={:?} hdrs={} body={}B#{:x}, handler saw route={:?} hdrs={} body={}B#{:x}; headers that differ: {:?}",
+                    c.id, short(&c.route), c.headers.len(), c.body_len, c.body_hash,
+                    short(&s.route), s.headers.len(), s.body_len, s.body_hash, hdr_diff
                 ));
             }
         }
